@@ -211,6 +211,28 @@ def run(rep: common.Report, tier: str, seed: int, replay=None) -> int:
             Atot_si = sol.vector_potential_at_position(P, units="T * m", return_sum=True, with_units=False)
             if np.max(np.abs(Atot_si[:, :2] - (Aref + Aapp_ref))) > 1e-8 * float(np.max(np.abs(Aref + Aapp_ref)) + 1e-300):
                 rep.violation("total vector potential (SI) is not applied + Coulomb-kernel sum of the stored currents", case)
+            # history form: the SAME solution object moved to other recorded steps and back; every evaluation must use the
+            # currents of the step that is loaded now
+            last = sol.solve_step
+            lo, hi = sol.data_range
+            for stp in sorted({lo, (lo + hi) // 2, max(lo, hi - 1)} - {last}) + [last]:
+                sol.solve_step = stp
+                Kk = (sol.supercurrent_density + sol.normal_current_density).to("A/m").magnitude
+                refk = direct_bs(P * to_m, pos3, Kk, dev.mesh.areas * (xi * to_m) ** 2)
+                gotk = sol.field_at_position(P, vector=True, units="tesla", with_units=False)
+                sck = max(float(np.max(np.abs(refk))), float(np.max(np.abs(ref)))) + 1e-300
+                if np.max(np.abs(gotk - refk)) > 1e-8 * sck:
+                    rep.violation("after moving the solution to another recorded step, field_at_position is not the Biot-Savart sum of "
+                                  "the currents of the step that is loaded", {**case, "step": int(stp), "evaluated_first_at_step": int(last)})
+                    break
+                rho = np.linalg.norm(P[:, None, :] * to_m - pos3[None, :, :], axis=2)
+                Arefk = 1e-7 * np.einsum("ij,jk->ik", (dev.mesh.areas * (xi * to_m) ** 2)[None, :] / rho, Kk)
+                Ak = sol.vector_potential_at_position(P, units="T * m", return_sum=False, with_units=False)
+                Agk = sum(np.asarray(v) for k_, v in Ak.items() if k_ != "applied")[:, :2]
+                if np.max(np.abs(Agk - Arefk)) > 1e-8 * (float(np.max(np.abs(Arefk))) + float(np.max(np.abs(Aref))) + 1e-300):
+                    rep.violation("after moving the solution to another recorded step, vector_potential_at_position is not the Coulomb-"
+                                  "kernel sum of the currents of the step that is loaded", {**case, "step": int(stp)})
+                    break
             rep.count(1)
             rep.nontrivial(("solution", fu, cu))
     # ---------- H <-> B conversions round-trip ----------
